@@ -55,6 +55,11 @@ def child_construct(root, cfg, recs, probes, fault):
         out["writes"] = [[e["path"], e["n"], e["chunks"], e["fault"]] for e in seam.log]
         out["fired"] = seam.fired
         out["ticks"] = clock.stop()
+        if clock.exceeded and not out.get("budget"):
+            out["build"] = {"exc": "StepBudgetExceeded"}
+            out.pop("probes", None)
+            out.pop("table", None)
+            out["budget"] = True
         return out
 
     try:
@@ -76,8 +81,11 @@ def child_construct(root, cfg, recs, probes, fault):
         out["table"] = table_digest(p.table)
         out["probes"] = [parse_outcome(p, x, roots) for x in probes]
     except StepBudgetExceeded:
+        pass
+    if clock.exceeded:  # whatever exception type surfaced
         out["build"] = {"exc": "StepBudgetExceeded"}
         out.pop("probes", None)
+        out.pop("table", None)
         out["budget"] = True
     return fin()
 
